@@ -12,7 +12,7 @@ class C10Rotating(Scenario):
     def gen_config(self, rng):
         cfg = structs.ExpandingSubject.gen_cfg(rng)
         cfg.update({"est": rng.between(1, 5), "mqs": rng.between(1, 4), "steps": rng.between(4, self.max_steps),
-                    "explicit": rng.chance(1, 2), "universe": rng.choice((8, 16, 40, 80))})
+                    "explicit": rng.chance(1, 2), "universe": rng.choice((8, 16, 40, 80)), "neighbour": rng.chance(1, 5)})
         if rng.chance(1, 25):
             cfg.update({"est": rng.choice((257, 300)), "mqs": rng.between(1, 3), "universe": 1500, "rate": 0.05, "big": True,
                         "steps": rng.between(6, 14)})
